@@ -175,6 +175,10 @@ class Request(HTTPConnection):
                 raise MalformedJSON(str(exc)) from None
             except RecursionError:
                 raise MalformedJSON("JSON document is nested too deeply") from None
+            except ValueError as exc:
+                # not a syntax error, e.g. an integer literal with more digits
+                # than the interpreter converts (sys.set_int_max_str_digits)
+                raise MalformedJSON(str(exc)) from None
 
         raise UnsupportedMediaType("application/json")
 
